@@ -320,6 +320,173 @@ def self_test(ctx: Ctx) -> None:
     ctx.count("selftest:injected_fault_detected")
 
 
+
+# ------------------------------------------------------------------ histories: gates constructed one after
+# another in one process, and gate objects used as parts of larger circuits
+
+
+def table_problems(case: dict, circ, tag: str) -> list[str]:
+    """the property's clauses for `case` evaluated on the circuit object `circ` (implementation only)"""
+    inputs, bits = case_inputs(case, circ.input_modes)
+    if bits is None:
+        return []
+    try:
+        amps = qg.impl_amplitudes(circ, inputs)
+    except Exception as e:  # noqa: BLE001
+        return [f"oracle: {describe(case)} {tag}: simulating the gate raised {exc_class(e)}"]
+    return [p.replace("oracle: ", f"oracle: {tag}: ", 1) for p in oracle(case, amps, inputs, bits)]
+
+
+def rot_matrix_float(g: str, th: float) -> np.ndarray:
+    return qg.named_single(g, {"theta": th})
+
+
+def run_near_angles(ctx: Ctx, case: dict) -> list[str]:
+    """rotation gates of one kind built one after another with angles that are close (equal after
+    rounding to a few decimals), equal, or 2*pi apart: each must implement ITS OWN angle, and building
+    a later gate must not change an earlier one"""
+    from lightworks import qubit
+
+    g = case["gate"]
+    ths = case["thetas"]
+    gates = []
+    probs = []
+    for th in ths:
+        gates.append(getattr(qubit, g)(th))
+    for k, (th, gate) in enumerate(zip(ths, gates)):
+        u = np.asarray(gate.U_full)
+        want = rot_matrix_float(g, th)
+        if u.shape != want.shape or np.abs(u - want).max() > TOL:
+            probs.append(f"oracle: {g}({th!r}) built as number {k + 1} of {len(ths)} gates with nearby angles "
+                         f"{ths} does not implement its own angle (max deviation {np.abs(u - want).max():.3e})")
+            break
+    return probs
+
+
+def gen_near_angles(rng) -> dict:
+    g = rng.choice(ROT)
+    base = rng.choice([0.0, 0.3, 1.0, math.pi / 2, math.pi, -2.1, 2.5, 1e-4, 0.1234, 6.0])
+    if rng.random() < 0.5:
+        base = rng.uniform(-7, 7)
+    deltas = [rng.choice([1e-4, 3e-4, 4.9e-4, -2e-4, 1e-6, 1e-9, 5e-3, 0.0, 2 * math.pi, -2 * math.pi, 1e-2])
+              for _ in range(rng.randint(1, 3))]
+    ths = [base] + [base + d for d in deltas]
+    if rng.random() < 0.3:
+        ths.reverse()
+    return {"stream": "near", "gate": g, "thetas": ths}
+
+
+def make_host(n_user: int, anc_at: list[int]):
+    """an identity circuit on `n_user` user modes with private ancilla modes (heralded on 0 photons)
+    created by adding herald-only sub-circuits; an entry p of `anc_at` puts an ancilla between user
+    modes p and p + 1"""
+    import lightworks as lw
+
+    host = lw.Circuit(n_user)
+    for pos in anc_at:
+        sub = lw.Circuit(3)
+        sub.herald(1, 0)
+        host.add(sub, pos, group=False)
+    return host
+
+
+def embed(state, n_user: int, at: int, width: int):
+    s = [0] * n_user
+    s[at:at + width] = list(state)
+    return s
+
+
+def run_reuse(ctx: Ctx, case: dict) -> list[str]:
+    """a library gate object is added to host circuits (with private ancillas inside the span it is
+    added over, grouped or not), possibly several times; afterwards (a) the gate object itself still
+    implements the gate it names, (b) the host implements that gate on the modes it was added to"""
+    gcase = case["gate_case"]
+    try:
+        gate = build_impl(gcase)
+    except Exception as e:  # noqa: BLE001
+        return [f"corr: reuse: constructor raised {exc_class(e)} for {gcase}"]
+    width = gate.input_modes
+    before = (np.array(gate.U_full), dict(gate.heralds["input"]), dict(gate.heralds["output"]), gate.n_modes)
+    probs = table_problems(gcase, gate, "fresh gate")
+    if probs:
+        return probs
+    inputs, bits = case_inputs(gcase, width)
+    ref = qg.impl_amplitudes(gate, inputs)
+    for use in case["uses"]:
+        n_user, anc_at, at, group = use["n_user"], use["anc_at"], use["at"], use["group"]
+        host = make_host(n_user, anc_at)
+        try:
+            host.add(gate, at, group=group)
+        except Exception as e:  # noqa: BLE001
+            probs.append(f"oracle: reuse: adding {describe(gcase)} at mode {at} of a {n_user}-mode host with ancillas "
+                         f"before modes {anc_at} raised {exc_class(e)}")
+            break
+        # (b) the host acts as the gate on the modes it was added to (other user modes empty)
+        try:
+            h_in = [embed(s, n_user, at, width) for s in inputs]
+            got = qg.impl_amplitudes(host, h_in)
+        except Exception as e:  # noqa: BLE001
+            probs.append(f"oracle: reuse: simulating the host after adding {describe(gcase)} raised {exc_class(e)}")
+            break
+        worst = 0.0
+        for s, hs in zip(inputs, h_in):
+            want = {tuple(embed(o, n_user, at, width)): a for o, a in ref[tuple(s)].items()}
+            have = got[tuple(hs)]
+            for o in set(want) | set(have):
+                worst = max(worst, abs(want.get(o, 0) - have.get(o, 0)))
+        if worst > TOL:
+            probs.append(f"oracle: reuse: a host ({n_user} modes, ancillas after user modes {anc_at}) to which {describe(gcase)} "
+                         f"was added at mode {at} (group={group}) does not implement the gate on those modes "
+                         f"(amplitudes differ by {worst:.3e})")
+            break
+        # (a) the gate object is what it was
+        try:
+            after = (np.array(gate.U_full), dict(gate.heralds["input"]), dict(gate.heralds["output"]), gate.n_modes)
+        except Exception as e:  # noqa: BLE001
+            probs.append(f"oracle: reuse: {describe(gcase)} can no longer be compiled after it was added to another "
+                         f"circuit ({exc_class(e)})")
+            break
+        if after[0].shape != before[0].shape or np.abs(after[0] - before[0]).max() > 1e-12 or after[1:] != before[1:]:
+            probs.append(f"oracle: reuse: {describe(gcase)} changed after it was added at mode {at} of a host with "
+                         f"ancillas after user modes {anc_at} (group={group})")
+            break
+        probs += table_problems(gcase, gate, "gate object after use")
+        if probs:
+            break
+    return probs
+
+
+def gen_reuse(rng) -> dict:
+    pool = [c for c in fixed_cases() if "target" in c or c["gate"] not in ("SWAP",)]
+    gcase = dict(rng.choice(pool)) if rng.random() < 0.7 else gen_rotation(rng)
+    width = {"CZ": 4, "CNOT": 4, "CZ_Heralded": 4, "CNOT_Heralded": 4, "CCZ": 6, "CCNOT": 6}.get(gcase["gate"], 2)
+    uses = []
+    for _ in range(rng.randint(1, 3)):
+        n_user = width + rng.randint(0, 3)
+        at = rng.randint(0, n_user - width)
+        k = rng.randint(0, 3)
+        # ancillas mostly strictly inside the span the gate is added over, sometimes outside / at the edges
+        # an entry p puts an ancilla between user modes p and p + 1
+        anc_at = sorted(rng.randint(at, at + width - 2) if rng.random() < 0.7
+                        else rng.randint(0, n_user - 2) for _ in range(k))
+        uses.append({"n_user": n_user, "anc_at": anc_at, "at": at, "group": rng.random() < 0.5})
+    return {"stream": "reuse", "gate_case": gcase, "uses": uses}
+
+
+HISTORY_CORPUS = [
+    {"stream": "near", "gate": "Rz", "thetas": [0.3, 0.3004]},
+    {"stream": "near", "gate": "P", "thetas": [1.0, 1.0 + 2 * math.pi, 1.0004]},
+    {"stream": "reuse", "gate_case": {"gate": "H"}, "uses": [{"n_user": 3, "anc_at": [0], "at": 0, "group": False},
+                                                             {"n_user": 2, "anc_at": [], "at": 0, "group": True}]},
+    {"stream": "reuse", "gate_case": {"gate": "CNOT", "target": 0},
+     "uses": [{"n_user": 5, "anc_at": [2, 3], "at": 1, "group": False}]},
+]
+
+
+def run_history(ctx: Ctx, case: dict) -> list[str]:
+    return run_near_angles(ctx, case) if case["stream"] == "near" else run_reuse(ctx, case)
+
+
 # ------------------------------------------------------------------ entry points
 
 
@@ -365,8 +532,36 @@ def run(ctx: Ctx) -> None:
             ctx.count("cases_with_problems")
             report(ctx, case, probs)
 
+    hist = list(HISTORY_CORPUS)
+    for _ in range(ctx.n(40, 600)):
+        hist.append(gen_near_angles(rng) if rng.random() < 0.4 else gen_reuse(rng))
+    for case in hist:
+        if ctx.out_of_time():
+            break
+        probs = run_history(ctx, case)
+        ctx.count("history:" + case["stream"])
+        if case["stream"] == "reuse":
+            ctx.count("history:reuse:gate=" + case["gate_case"]["gate"])
+            w = 2 if case["gate_case"]["gate"] in FIXED_SINGLE or case["gate_case"]["gate"] in ROT else \
+                (6 if case["gate_case"]["gate"].startswith("CC") else 4)
+            if any(any(u["at"] <= a <= u["at"] + w - 2 for a in u["anc_at"]) for u in case["uses"]):
+                ctx.count("history:reuse:ancilla-inside-span")
+        ctx.case(json.dumps(case, sort_keys=True), True)
+        if probs:
+            ctx.count("cases_with_problems")
+            ctx.violation(probs[0], {"case": case, "problems": probs},
+                          sig={"kind": "history", "stream": case["stream"]})
+
 
 def replay(ctx: Ctx, path: str) -> None:
+    _data = json.load(open(path))
+    if _data["replay"].get("case", {}).get("stream") in ("near", "reuse"):
+        probs = run_history(ctx, _data["replay"]["case"])
+        ctx.case("replay", True, sample=_data["replay"]["case"])
+        for p in probs:
+            print("replay:", p)
+            ctx.violation(p, _data["replay"], sig={"kind": "replay"})
+        return
     data = json.load(open(path))
     case = data["replay"]["case"]
     probs = run_case(ctx, case)
